@@ -122,19 +122,4 @@ def evs_for(evs, tid):
 def short(o): return json.dumps(o, default=str)[:300]
 
 
-def same_obs(k, a, b):
-    if k in ('source',): return a.get('source') == b.get('source')
-    if k == 'size': return a.get('views') == b.get('views')
-    if k.startswith('map'):
-        ma, mb = a['maps'].get('c' + k[3]), b['maps'].get('c' + k[3])
-        if (ma is None) != (mb is None): return False
-        if ma is None: return True
-        return oracles.map_segs(ma) == oracles.map_segs(mb) and ma['sources'] == mb['sources'] and ma['names'] == mb['names']
-    sa, sb = a['streams'][k], b['streams'][k]
-    if sa['end'] != sb['end']: return False
-    ta = ''.join(e[1] or '' for e in oracles.chunks_of(sa['events'])); tb = ''.join(e[1] or '' for e in oracles.chunks_of(sb['events']))
-    if ta != tb: return False
-    # attribution per chunk start (a replayed stream may be cut differently: compare through positions)
-    pos, _ = oracles.positions(ta)
-    aa, ab = oracles.stream_attr(sa), oracles.stream_attr(sb)
-    return all(oracles.lookup(aa, l, c) == oracles.lookup(ab, l, c) for (l, c) in pos) if ta else True
+def same_obs(k, a, b): return oracles.same_obs(k, a, b)
